@@ -199,11 +199,14 @@ func checkC06(p *Program, r *Report) {
 			nInner := 0
 			nLeaf := 0
 			for _, e := range sp.events {
-				if isFixupInnerBytes(e) {
+				switch {
+				case isFixupInnerBytes(e):
 					nInner++
-				}
-				if isFixupLeaves(e) {
+				case isFixupLeaves(e):
 					nLeaf++
+				case e.kind == "fixup":
+					// any other in-place rewrite of the loaded message changes what the stream encodes
+					fixBad = append(fixBad, "unexpected in-place rewrite of loaded data ("+e.detail+") at "+p.Pos(e.pos)+": only the prefix re-encoding and the leaf array reconstruction of the 0.5.10 layout are part of the format")
 				}
 			}
 			hasBuild := sp.has("build", "")
@@ -458,10 +461,30 @@ func checkC07(p *Program, r *Report) {
 		}
 	}
 	sort.Slice(fs, func(i, j int) bool { return fs[i].String() < fs[j].String() })
+	// read-like: the stream reads, and helpers of package trie that perform one and return an error
+	readLike := map[*ssa.Function]bool{}
+	for ch := true; ch; {
+		ch = false
+		for _, f := range fs {
+			if readLike[f] || f == un {
+				continue
+			}
+			rs := f.Signature.Results()
+			if rs.Len() == 0 || !isErrorType(rs.At(rs.Len()-1).Type()) {
+				continue
+			}
+			for _, c := range callsIn(f) {
+				if calleeIs(c, idReadHeader, idPbUnmarsh) || readLike[calleeOf(c)] {
+					readLike[f] = true
+					ch = true
+				}
+			}
+		}
+	}
 	for _, f := range fs {
 		for _, c := range callsIn(f) {
 			call, ok := c.(*ssa.Call)
-			if !ok || !calleeIs(call, idReadHeader, idPbUnmarsh) {
+			if !ok || !(calleeIs(call, idReadHeader, idPbUnmarsh) || readLike[calleeOf(call)]) {
 				continue
 			}
 			nReads++
@@ -469,6 +492,8 @@ func checkC07(p *Program, r *Report) {
 			if calleeIs(call, idPbUnmarsh) {
 				t, _ := msgTypeOfParse(call)
 				name = "section read into " + t
+			} else if readLike[calleeOf(call)] {
+				name = "read helper " + shortFn(calleeOf(call))
 			}
 			construct := fmt.Sprintf("%s #%d in %s: error propagates", name, nReads, shortFn(f))
 			why := errorDiscipline(p, f, call)
@@ -478,6 +503,25 @@ func checkC07(p *Program, r *Report) {
 	if nReads == 0 {
 		r.Unk("stream reads", p.Pos(un.Pos()), "no pbcmpl.ReadHeader / pbcmpl.Unmarshal call found under Unmarshal")
 	}
+	// only the stream layer may decode a body: a direct protobuf decode has no exact-size check,
+	// so a stream cut at a field boundary would be accepted as a partial index
+	var direct []string
+	for _, f := range fs {
+		for _, c := range callsIn(f) {
+			if g := calleeOf(c); g != nil {
+				id := funcID(g)
+				if strings.HasPrefix(id, "github.com/golang/protobuf/proto.Unmarshal") || strings.HasPrefix(id, "(*github.com/golang/protobuf/proto.Buffer).Unmarshal") ||
+					strings.HasPrefix(id, "github.com/golang/protobuf/proto.UnmarshalMerge") || strings.HasPrefix(id, "(*github.com/golang/protobuf/proto.Buffer).DecodeMessage") {
+					direct = append(direct, p.Pos(c.Pos())+" ("+shortFn(f)+")")
+				}
+			}
+		}
+	}
+	sort.Strings(direct)
+	r.Check(len(direct) == 0, "bodies are decoded only through the length-checked stream layer", p.Pos(un.Pos()), "no direct protobuf decode under Unmarshal; every body goes through pbcmpl.Unmarshal (exact-size read)",
+		"a body is decoded directly at "+strings.Join(direct, ", ")+" without the exact-size read of the stream layer: a stream cut at a protobuf field boundary loads as a partial index")
+	// the pinned stream layer itself: exact-size reads whose errors propagate
+	checkPbcmpl(p, r)
 
 	// ---- cleared
 	r.Rule("C07.cleared", "E4/E5", "the instance is cleared first and error paths leave it cleared", 2)
@@ -529,8 +573,23 @@ func errorDiscipline(p *Program, f *ssa.Function, call *ssa.Call) string {
 			errVal = ex
 		}
 	}
+	if errVal == nil && isErrorType(call.Type()) && len(*call.Referrers()) > 0 {
+		errVal = call
+	}
 	if errVal == nil {
 		return "the error result is discarded"
+	}
+	// a helper's error returned unchanged by the caller ("return helper(...)") propagates by construction
+	if errVal == ssa.Value(call) {
+		all := true
+		for _, ref := range *call.Referrers() {
+			if _, ok := ref.(*ssa.Return); !ok {
+				all = false
+			}
+		}
+		if all {
+			return ""
+		}
 	}
 	// values that are the error (through phis)
 	isErr := func(v ssa.Value) bool { return v == errVal }
@@ -580,6 +639,13 @@ func errorDiscipline(p *Program, f *ssa.Function, call *ssa.Call) string {
 					bad = "the next stream read at " + p.Pos(x.Pos()) + " is reachable although this read may have failed"
 					return
 				}
+				if g := calleeOf(x); g != nil && trieScope(g) {
+					ve := &versEngine{}
+					if ve.containsRead(g, map[*ssa.Function]bool{}) {
+						bad = "the next stream read (in " + shortFn(g) + ") at " + p.Pos(x.Pos()) + " is reachable although this read may have failed"
+						return
+					}
+				}
 				if g := calleeOf(x); g != nil && takesTrie(g) {
 					bad = "load step " + shortFn(g) + " at " + p.Pos(x.Pos()) + " is reachable although this read may have failed"
 					return
@@ -588,6 +654,107 @@ func errorDiscipline(p *Program, f *ssa.Function, call *ssa.Call) string {
 				if _, fv, fa := fieldOfAddr(x.Addr); fa != nil && isNamed(fa.X.Type(), triePath, "SlimTrie") {
 					bad = "store to st." + fv.Name() + " at " + p.Pos(x.Pos()) + " is reachable although this read may have failed"
 					return
+				}
+			}
+		}
+		for _, s := range b.Succs {
+			if cut[edge{b, s}] || seen[s] {
+				continue
+			}
+			seen[s] = true
+			scan(s, 0)
+		}
+	}
+	scan(call.Block(), instrIndex(call)+1)
+	return bad
+}
+
+// checkPbcmpl: in openacid/low/pbcmpl (pinned dependency, analysed from its
+// source in the module cache) ReadHeader and Unmarshal read exact sizes with
+// io.ReadFull and no success return is reachable after a failed read.
+func checkPbcmpl(p *Program, r *Report) {
+	var rh, um *ssa.Function
+	for _, f := range p.FuncsOf(lowPath + "/pbcmpl") {
+		switch funcID(f) {
+		case idReadHeader:
+			rh = f
+		case idPbUnmarsh:
+			um = f
+		}
+	}
+	if rh == nil || um == nil {
+		r.Unk("openacid/low/pbcmpl stream layer", "", "ReadHeader/Unmarshal bodies not loaded")
+		return
+	}
+	n := 0
+	for _, f := range []*ssa.Function{rh, um} {
+		r.Func(shortFn(f))
+		for _, c := range callsIn(f) {
+			call, ok := c.(*ssa.Call)
+			if !ok {
+				continue
+			}
+			isRead := calleeIs(call, "io.ReadFull") || calleeIs(call, idReadHeader)
+			if !isRead {
+				continue
+			}
+			n++
+			name := "io.ReadFull"
+			if calleeIs(call, idReadHeader) {
+				name = "ReadHeader"
+			}
+			why := errorDisciplineGeneric(p, f, call)
+			r.Check(why == "", fmt.Sprintf("pbcmpl: %s #%d in %s: error propagates", name, n, shortFn(f)), p.Pos(call.Pos()), "no success return after a failed read", why)
+			if calleeIs(call, "io.ReadFull") {
+				// exact-size: the buffer is a make([]byte, size) whose size comes from the header / the fixed header size
+				_, isMake := call.Call.Args[1].(*ssa.MakeSlice)
+				r.Check(isMake, fmt.Sprintf("pbcmpl: read #%d in %s is exact-size", n, shortFn(f)), p.Pos(call.Pos()), "io.ReadFull into a freshly made buffer of the announced size", "the read is not an exact-size io.ReadFull into a fresh buffer")
+			}
+		}
+	}
+	if n < 3 {
+		r.Unk("openacid/low/pbcmpl stream layer", "", fmt.Sprintf("only %d reads found, expected the header read, the nested header read and the body read", n))
+	}
+}
+
+// errorDisciplineGeneric: like errorDiscipline, for functions whose success
+// return has a nil error as last result.
+func errorDisciplineGeneric(p *Program, f *ssa.Function, call *ssa.Call) string {
+	var errVal ssa.Value
+	for _, ref := range *call.Referrers() {
+		if ex, ok := ref.(*ssa.Extract); ok && isErrorType(ex.Type()) {
+			errVal = ex
+		}
+	}
+	if errVal == nil {
+		return "the error result is discarded"
+	}
+	type edge struct{ from, to *ssa.BasicBlock }
+	cut := map[edge]bool{}
+	tested := false
+	for _, b := range f.Blocks {
+		if iff, ok := lastInstr(b).(*ssa.If); ok {
+			if x, nilSucc, ok := nilTest(iff.Cond); ok && x == errVal {
+				cut[edge{b, b.Succs[nilSucc]}] = true
+				tested = true
+			}
+		}
+	}
+	if !tested {
+		return "the error result is never compared with nil"
+	}
+	bad := ""
+	seen := map[*ssa.BasicBlock]bool{}
+	var scan func(b *ssa.BasicBlock, start int)
+	scan = func(b *ssa.BasicBlock, start int) {
+		if bad != "" {
+			return
+		}
+		for _, in := range b.Instrs[start:] {
+			if ret, ok := in.(*ssa.Return); ok && len(ret.Results) > 0 {
+				last := ret.Results[len(ret.Results)-1]
+				if isErrorType(last.Type()) && isNilConst(last) {
+					bad = "a success return at " + p.Pos(ret.Pos()) + " is reachable although this read may have failed"
 				}
 			}
 		}
